@@ -46,12 +46,14 @@ func (compile schemaCompiler) compileNode(node schema.Node, indexOfNode int) {
 	if err := compile.allowedConstraintCheck(node); err != nil {
 		panic(err)
 	}
-	compile.anyConstraint(node) // can panic
+	compile.anyConstraint(node)              // can panic
+	compile.exclusiveMinimumConstraint(node) // can panic
+	compile.exclusiveMaximumConstraint(node) // can panic
+	// Must be called after the exclusive flags are known: min and max may be
+	// equal only if none of them is exclusive.
 	if err := compile.checkPairConstraints(node); err != nil {
 		panic(err)
 	}
-	compile.exclusiveMinimumConstraint(node)       // can panic
-	compile.exclusiveMaximumConstraint(node)       // can panic
 	compile.optionalConstraints(node, indexOfNode) // can panic
 
 	if branchingNode, ok := node.(schema.BranchNode); ok {
